@@ -273,9 +273,19 @@ def _addr_width(data_width, adr_width):
     return adr_width + (data_width // 8).bit_length() - 1
 
 
-def make_shared(n, decs, register=False, timeout=None, data_width=8, adr_width=2, **kw):
+def _masters(n, data_width, adr_width, adr_widths):
+    """Master ports; `adr_widths` (one per master) overrides the common `adr_width`.  Returns (masters, widest)."""
+    if adr_widths is None:
+        return _ifaces(n, data_width, adr_width), adr_width
+    assert len(adr_widths) == n
+    return [wishbone.Interface(data_width=data_width, adr_width=w) for w in adr_widths], max(adr_widths)
+
+
+def make_shared(n, decs, register=False, timeout=None, data_width=8, adr_width=2, adr_widths=None, **kw):
+    """`adr_widths=[w0, …]`: masters of different `adr_width` (slaves and decoders use the widest)."""
     m = len(decs)
-    masters, slaves = _ifaces(n, data_width, adr_width), _ifaces(m, data_width, adr_width)
+    masters, adr_width = _masters(n, data_width, adr_width, adr_widths)
+    slaves = _ifaces(m, data_width, adr_width)
     bus = wishbone.Interface(data_width=data_width, adr_width=adr_width)
     mod = wishbone.InterconnectShared(masters, [(d.fn(bus), s) for d, s in zip(decs, slaves)], register=register,
                                       timeout_cycles=timeout)
@@ -284,13 +294,16 @@ def make_shared(n, decs, register=False, timeout=None, data_width=8, adr_width=2
     lean_open = "shared %d %d %d %s %d %d %s" % (n, m, int(register), "none" if timeout is None else int(timeout),
                                                 data_width, _addr_width(data_width, adr_width),
                                                 " ".join(d.word() for d in decs))
+    if adr_widths is not None:
+        lean_open += " aws:" + ",".join(map(str, adr_widths))
     return WbFabric(kw.pop("name", name), "shared", mod, masters, slaves, decs, lean_open, register=register,
                     timeout=timeout, error_sig=mod.timeout.error if timeout is not None else None, bus=bus, **kw)
 
 
-def make_xbar(n, decs, register=False, data_width=8, adr_width=2, timeout_arg=None, **kw):
+def make_xbar(n, decs, register=False, data_width=8, adr_width=2, timeout_arg=None, adr_widths=None, **kw):
     m = len(decs)
-    masters, slaves = _ifaces(n, data_width, adr_width), _ifaces(m, data_width, adr_width)
+    masters, adr_width = _masters(n, data_width, adr_width, adr_widths)
+    slaves = _ifaces(m, data_width, adr_width)
     bus = wishbone.Interface(data_width=data_width, adr_width=adr_width)
     args = {} if timeout_arg is None else {"timeout_cycles": timeout_arg}
     mod = wishbone.Crossbar(masters, [(d.fn(bus), s) for d, s in zip(decs, slaves)], register=register, **args)
@@ -366,14 +379,18 @@ def make_p2p(data_width=8, adr_width=2, **kw):
 # ---------------------------------------------------------------------------------------------------------
 # alphabets for exhaustive exploration
 
-def small_alphabet(n, m, adrs=(0, 1, 2, 3), full=False, slave_full=False):
+def small_alphabet(n, m, adrs=(0, 1, 2, 3), full=False, slave_full=False, adr_widths=None):
     """Protocol-shaped letters for n masters × m slaves on a 2-bit address / 8-bit data fabric.
     Masters: idle, request(adr, we = adr & 1) [+ with `full`: both we values, cyc without stb, stb without cyc];
     every master carries its index on `bte` and on dat_w bit i.
     Slaves: silent (garbage on dat_r), ack, err [+ with `slave_full`: ack and err together]; slave j answers
-    dat_r = 1 << j, so the OR data mux is observable bit by bit."""
+    dat_r = 1 << j, so the OR data mux is observable bit by bit.
+    `adr_widths`: per-master address width (masters of different `adr_width`)."""
     msets = []
+    all_adrs = adrs
     for i in range(n):
+        # a master of narrower adr_width only drives the addresses it can express
+        adrs = [a for a in all_adrs if adr_widths is None or a < (1 << adr_widths[i])]
         s = [m_idle(tag=i, adr=adrs[-1])]
         for a in adrs:
             wes = (0, 1) if full else (a & 1,)
@@ -420,7 +437,7 @@ class ProtocolEnv:
         neighbours just outside and a few unmapped ones."""
         inst = self.inst
         if self.adr_pool is None:
-            mask = (1 << len(inst.masters[0].adr)) - 1
+            mask = (1 << len(inst.bus.adr)) - 1
             pool = []
             for j in range(self.m):
                 ex = [inst.decs[j].example(rng, inst.bus) & mask for _ in range(8)]
@@ -435,7 +452,7 @@ class ProtocolEnv:
         p_start = (0.5, 0.95, 0.15, 1.0, 0.6, 0.3)[regime]
         max_lat = (2, 0, 5, 1, 3, 8)[regime]
         p_err = (0.1, 0.0, 0.2, 0.05, 0.5, 0.1)[regime]
-        aw = len(inst.masters[0].adr)
+        aw = max(len(mst.adr) for mst in inst.masters)
         dwm = (1 << inst.data_width) - 1
         selm = (1 << len(inst.masters[0].sel)) - 1
         if last is not None:
@@ -452,7 +469,7 @@ class ProtocolEnv:
                 self.req[i] = None
                 self.hold_cyc[i] = False
             if self.req[i] is None and rng.random() < p_start:
-                adr = rng.choice(pool) if rng.random() < 0.9 else rng.getrandbits(aw)
+                adr = (rng.choice(pool) if rng.random() < 0.9 else rng.getrandbits(aw)) & ((1 << len(inst.masters[i].adr)) - 1)
                 we = rng.getrandbits(1)
                 dat = ((i + 1) << (inst.data_width - 4)) | rng.getrandbits(max(1, inst.data_width - 4)) if inst.data_width >= 8 else rng.getrandbits(inst.data_width)
                 self.req[i] = m_req(adr, we=we, dat_w=dat & dwm, sel=rng.randint(1, selm) if selm > 1 else 1,
@@ -460,10 +477,10 @@ class ProtocolEnv:
             if self.req[i] is not None:
                 parts.append(self.req[i])
             elif self.hold_cyc[i] and rng.random() < 0.7:
-                parts.append(m_req(rng.choice(pool), stb=0, tag=i & 3))
+                parts.append(m_req(rng.choice(pool) & ((1 << len(inst.masters[i].adr)) - 1), stb=0, tag=i & 3))
             else:
                 self.hold_cyc[i] = False
-                g = rng.getrandbits(aw) if self.garbage else 0
+                g = rng.getrandbits(len(inst.masters[i].adr)) if self.garbage else 0
                 parts.append((0, rng.getrandbits(1) if self.garbage else 0, 0, g, 0, 0, 0, i & 3))
         # slaves: see the strobes of the *current* cycle (peek) and answer after a random latency (0 = same cycle)
         now_s = inst.peek(parts)
